@@ -5,6 +5,13 @@ HERE = os.path.dirname(os.path.abspath(__file__))
 ALL = ["C%02d" % i for i in range(1, 21)]
 
 CHECKS = {
+ "C12": dict(
+  engine="metamorphic",
+  technique="metamorphic relation between two real `lian run` executions: P and edit(P) are analysed in their own forked children; call edges (call_paths_p3), source-level bindings (s2space_p1) and taint flows (taint_data_flow.json) are normalised to (file, line, name) terms and compared through the line/name maps of nine statically proven editors; generated Python/JavaScript programs are additionally executed under CPython/node; three recording wrappers classify observed differences by mechanism",
+  category="exploration",
+  text="Edits: blank/comment lines, consistent rename of a local / parameter / function / class / method, no-op statement, reordering of independent top-level definitions, moving a function into another file and importing it; sequences of 1-3 edits. Every edit is proven meaning-preserving before use (Python: ast equality modulo the edit, symtable agreement for renames, no definition-time dependency for reorder/move; other languages: tree-sitter token sequences equal modulo the edit, no ERROR node) and generated Python/JavaScript pairs are executed and must behave identically (else dropped and counted). Bases: generated flow programs in Python and JavaScript, G-py programs with sinks, programs with an `import a, b` line, 8 hand templates (Java, Go, C, PHP, TypeScript, JavaScript), repo corpus files; every base is analysed twice and dropped if its two runs differ. A failing multi-edit pair is re-run with each single edit alone. Quick ~140 pairs from ~230 runs, thorough ~3140 pairs from ~4600 runs; floors on pairs per language/origin and on pairs with non-empty call edges / bindings / flows.",
+  note="Nothing is claimed beyond the generated, template and corpus programs; templates in five languages are not executed; results on inserted lines are excluded; absolute line correctness (C10) and the numbering of unresolved symbols are outside the relation. One open mechanism (P3 add_arg_to_param_edge matches state nodes by frame-local index) masks taint-flow differences only when the recorded argument->parameter edge sets of the two runs differ.",
+  design="DESIGN.md §C12"),
  "C07": dict(
   engine="runner",
   technique="runtime monitoring with an executable oracle: CPython sys.setprofile call events (node for a JavaScript rendering) of generated call-kind programs compared with the call paths lian stores, the loader's callee/caller API and P3 frames recorded by wrappers, one project per forked `semantic` run",
